@@ -1105,6 +1105,9 @@ class Ctx:
     g = self.engine.globals
     if name in g:
       return g[name]
+    v = self.engine.resolve_global(self, name)
+    if v is not None:
+      return v[0]
     raise KeyError(name)
 
   def store(self, name, value):
